@@ -1,11 +1,15 @@
 use crate::engine::*;
 use serde_json::Value;
 
+pub mod c04;
+pub mod c05;
 pub mod c16;
 pub mod c17;
 
 pub fn run(ctx: &Ctx) -> Option<PropReport> {
     Some(match ctx.prop.as_str() {
+        "C04" => c04::run(ctx),
+        "C05" => c05::run(ctx),
         "C16" => c16::run(ctx),
         "C17" => c17::run(ctx),
         _ => return None,
@@ -14,6 +18,8 @@ pub fn run(ctx: &Ctx) -> Option<PropReport> {
 
 pub fn replay(ctx: &Ctx, sub: &str, case: &Value) -> Result<(), Fail> {
     match ctx.prop.as_str() {
+        "C04" => c04::replay(ctx, sub, case),
+        "C05" => c05::replay(ctx, sub, case),
         "C16" => c16::replay(ctx, sub, case),
         "C17" => c17::replay(ctx, sub, case),
         _ => Err(Fail::new("replay-unsupported", "no replay for this property")),
@@ -22,6 +28,17 @@ pub fn replay(ctx: &Ctx, sub: &str, case: &Value) -> Result<(), Fail> {
 
 /// Deterministic probe of one listed known finding: Some(true) if it still reproduces.
 pub fn probe_known(ctx: &Ctx, key: &str) -> Option<bool> {
-    let _ = (ctx, key);
+    let _ = ctx;
+    if key.starts_with("C04/") {
+        return c04::probe_known(key);
+    }
     None
+}
+
+/// Second leg of a build-profile differential (run by the release binary).
+pub fn leg(prop: &str, seed: u64, n: u64, _rest: &[String]) {
+    match prop {
+        "C04" => c04::leg(seed, n),
+        _ => {}
+    }
 }
